@@ -136,7 +136,7 @@ func (p c15) check(rc Recipe, st State, rep *runner.Reporter) {
 			rep.Violation(&runner.Witness{Sig: "DIAG no-subject rule=" + rule, What: "diagnostic without a subject range: " + d.Summary, Unit: unit, Files: filesOf(ws)})
 			continue
 		}
-		if inDyn(d.Subject) {
+		if inDyn(d.Subject) || (name == "dynamic" && (rule == "too-many-labels" || rule == "not-enough-labels")) {
 			rep.Count("diags_in_dynamic_zone", 1)
 			continue
 		}
